@@ -677,6 +677,18 @@ func (env *Env) call(x *Expr) Val {
 			return intVal(g)
 		}
 		return intVal("0")
+	case "isfresh":
+		// isfresh(p): p points to an object allocated by the current activation
+		a := env.eval(x.Args[0])
+		for _, o := range e.freshObjs {
+			if len(a.L) == 1 && a.L[0] == o {
+				return boolVal("true")
+			}
+		}
+		if r := a.ref(0); r != nil && r.Loc != nil && r.Loc.Kind == LCell {
+			return boolVal("true")
+		}
+		return boolVal("false")
 	case "spawnedCount":
 		var n string
 		switch x.Args[0].Op {
